@@ -198,9 +198,9 @@ func runC20(c *Ctx) {
 	for _, op := range []string{"new", "build", "append", "build-keyid", "build-idkey", "append-keyid"} {
 		for k := 0; k < 32; k++ {
 			data := seedBytes[:k]
-			emit("fault", op, []readStep{{K: "chunkerr", Data: data}})                  // error with the last chunk
-			emit("fault", op, []readStep{{K: "chunk", Data: data}, {K: "fail"}})        // error on the next call
-			emit("fault", op, []readStep{{K: "chunk", Data: data}})                     // io.EOF
+			emit("fault", op, []readStep{{K: "chunkerr", Data: data}})           // error with the last chunk
+			emit("fault", op, []readStep{{K: "chunk", Data: data}, {K: "fail"}}) // error on the next call
+			emit("fault", op, []readStep{{K: "chunk", Data: data}})              // io.EOF
 			var ones []readStep
 			for i := 0; i < k; i++ {
 				ones = append(ones, readStep{K: "chunk", Data: data[i : i+1]})
